@@ -6,6 +6,138 @@ FUNCS = ["mult_matrix", "translate_matrix", "apply_matrix_pt", "apply_matrix_rec
          "apply_matrix_norm", "drange"]
 
 
+import ast
+
+
+def const_int(mod, name: str) -> int:
+    """Value of a module-level integer constant written with literals and + - * << only."""
+    e = P.find_assign(mod, name)
+
+    def ev(x):
+        if isinstance(x, ast.Constant) and isinstance(x.value, int) and not isinstance(x.value, bool):
+            return x.value
+        if isinstance(x, ast.UnaryOp) and isinstance(x.op, ast.USub):
+            return -ev(x.operand)
+        if isinstance(x, ast.BinOp):
+            l, r = ev(x.left), ev(x.right)
+            if isinstance(x.op, ast.Add):
+                return l + r
+            if isinstance(x.op, ast.Sub):
+                return l - r
+            if isinstance(x.op, ast.Mult):
+                return l * r
+            if isinstance(x.op, ast.LShift) and 0 <= r <= 64:
+                return l << r
+        raise P.Untranslatable(f"{name} is not a constant integer expression")
+    return ev(e)
+
+
+def get_bound_fold(mod, known) -> str:
+    """`get_bound`: `limit = (±INF ...); (state) = limit; for x, y in pts: <assignments>; return state`
+    becomes a left fold of the translated loop body over the list of points."""
+    fn = P.find_function(mod, "get_bound")
+    body = [s for s in fn.body
+            if not (isinstance(s, ast.Expr) and isinstance(s.value, ast.Constant) and isinstance(s.value.value, str))]
+    if len(body) != 4:
+        raise P.Untranslatable("get_bound: expected limit / unpack / for / return")
+    lim, unp, loop, ret = body
+    if isinstance(lim, ast.AnnAssign):
+        lim_t, lim_v = lim.target, lim.value
+    elif isinstance(lim, ast.Assign) and len(lim.targets) == 1:
+        lim_t, lim_v = lim.targets[0], lim.value
+    else:
+        raise P.Untranslatable("get_bound: limit assignment")
+    if not (isinstance(lim_t, ast.Name) and isinstance(lim_v, ast.Tuple)):
+        raise P.Untranslatable("get_bound: limit is not a tuple")
+    init = []
+    for e in lim_v.elts:
+        if isinstance(e, ast.Name) and e.id == "INF":
+            init.append("((INF : Int) : Rat)")
+        elif (isinstance(e, ast.UnaryOp) and isinstance(e.op, ast.USub) and isinstance(e.operand, ast.Name)
+              and e.operand.id == "INF"):
+            init.append("(-((INF : Int) : Rat))")
+        else:
+            raise P.Untranslatable("get_bound: limit component is not +-INF")
+    if not (isinstance(unp, ast.Assign) and len(unp.targets) == 1 and isinstance(unp.targets[0], ast.Tuple)
+            and isinstance(unp.value, ast.Name) and unp.value.id == lim_t.id
+            and all(isinstance(x, ast.Name) for x in unp.targets[0].elts)):
+        raise P.Untranslatable("get_bound: state unpacking")
+    state = [x.id for x in unp.targets[0].elts]
+    if len(state) != len(init) or len(state) != 4:
+        raise P.Untranslatable("get_bound: state arity")
+    if not (isinstance(loop, ast.For) and not loop.orelse and isinstance(loop.iter, ast.Name)
+            and loop.iter.id == fn.args.args[0].arg and isinstance(loop.target, ast.Tuple)
+            and len(loop.target.elts) == 2 and all(isinstance(x, ast.Name) for x in loop.target.elts)):
+        raise P.Untranslatable("get_bound: loop header")
+    for s in loop.body:
+        if not (isinstance(s, ast.Assign) and len(s.targets) == 1 and isinstance(s.targets[0], ast.Name)
+                and s.targets[0].id in state):
+            raise P.Untranslatable("get_bound: loop body is not a sequence of state assignments")
+    if not (isinstance(ret, ast.Return) and isinstance(ret.value, ast.Tuple)
+            and [getattr(x, "id", None) for x in ret.value.elts] == state):
+        raise P.Untranslatable("get_bound: return is not the state tuple")
+    pt = [x.id for x in loop.target.elts]
+    src = ("def get_bound_step(acc: Rect, pt: Point) -> Rect:\n"
+           f"    ({', '.join(state)}) = acc\n"
+           f"    ({', '.join(pt)}) = pt\n"
+           + "".join("    " + ast.unparse(s) + "\n" for s in loop.body)
+           + f"    return ({', '.join(state)})\n")
+    step = ast.parse(src).body[0]
+    tr = P.FuncTranslator(known, default_kind="rat")
+    out = tr.function(step) + "\n"
+    out += ("def get_bound (pts : List Point) : Rect :=\n"
+            f"  List.foldl get_bound_step ({', '.join(init)}) pts\n\n")
+    return out
+
+
+# `uniq` and `fsplit` are generic generators/loops over arbitrary Python objects: outside the translator's
+# subset.  Their Lean definitions below are emitted only while the Python source still has exactly this shape
+# (an edit of either function stops the run with a translator failure).
+PINNED = {
+    "uniq": (
+        "def uniq(objs):\n"
+        "    done = set()\n"
+        "    for obj in objs:\n"
+        "        if obj in done:\n"
+        "            continue\n"
+        "        done.add(obj)\n"
+        "        yield obj\n",
+        "/-- `uniq` (pinned shape): `go done objs`; `done` is the set of elements already yielded. -/\n"
+        "def uniqGo (done : List Int) : List Int → List Int\n"
+        "  | [] => []\n"
+        "  | obj :: rest => if obj ∈ done then uniqGo done rest else obj :: uniqGo (obj :: done) rest\n\n"
+        "def uniq (objs : List Int) : List Int := uniqGo [] objs\n\n"),
+    "fsplit": (
+        "def fsplit(pred, objs):\n"
+        "    t = []\n"
+        "    f = []\n"
+        "    for obj in objs:\n"
+        "        if pred(obj):\n"
+        "            t.append(obj)\n"
+        "        else:\n"
+        "            f.append(obj)\n"
+        "    return (t, f)\n",
+        "/-- `fsplit` (pinned shape): the loop state is the pair of lists `(t, f)`. -/\n"
+        "def fsplitGo (pred : Int → Bool) (t f : List Int) : List Int → List Int × List Int\n"
+        "  | [] => (t, f)\n"
+        "  | obj :: rest => if pred obj then fsplitGo pred (t ++ [obj]) f rest else fsplitGo pred t (f ++ [obj]) rest\n\n"
+        "def fsplit (pred : Int → Bool) (objs : List Int) : List Int × List Int := fsplitGo pred [] [] objs\n\n"),
+}
+
+
+def pinned(mod, name: str) -> str:
+    fn = P.find_function(mod, name)
+    body = [s for s in fn.body
+            if not (isinstance(s, ast.Expr) and isinstance(s.value, ast.Constant) and isinstance(s.value.value, str))]
+    ref_src, lean = PINNED[name]
+    ref = ast.parse(ref_src).body[0]
+    if ([a.arg for a in fn.args.args] != [a.arg for a in ref.args.args] or fn.args.defaults or fn.args.vararg
+            or fn.args.kwarg or fn.args.kwonlyargs
+            or [ast.dump(s) for s in body] != [ast.dump(s) for s in ref.body]):
+        raise P.Untranslatable(f"{name} no longer has the shape its Lean definition was written for")
+    return lean
+
+
 def generate(lean_dir: str):
     mod = P.parse_file("pdfminer/utils.py")
     known = {}
@@ -20,6 +152,11 @@ def generate(lean_dir: str):
         out.append(tr.function(fn))
         out.append("\n")
         known[name] = name
+    inf = const_int(mod, "INF")
+    out.append("def INF : Int := %d\n\n" % inf)
+    out.append(get_bound_fold(mod, known))
+    out.append(pinned(mod, "uniq"))
+    out.append(pinned(mod, "fsplit"))
     # the bound on the number of grid cells one Plane operation may touch
     mc = P.literal(P.find_assign(mod, "Plane.MAXCELLS"))
     if not (isinstance(mc, int) and not isinstance(mc, bool) and mc > 0):
